@@ -25,11 +25,11 @@ except OSError:
 SPEC = dict(
     harness=['h_traj.c'],
     # the default (double) build runs the full harness; the other two real widths run a compact type-generic companion
-    configs=lambda tier: [dict(name='f64'), dict(name='f64-clang', libcc='clang', nworkers=4, of=8), dict(name='f32', real=4, harness=['h_traj_w.c']), dict(name='f80', real=16, harness=['h_traj_w.c']),
+    configs=lambda tier: [dict(name='f64'), dict(name='f64-clang', libcc='clang', nworkers=4, of=8), dict(name='f64-o2', libflavour='san-o2', libdrop=['-fno-strict-aliasing'], nworkers=4, of=8), dict(name='f32', real=4, harness=['h_traj_w.c']), dict(name='f80', real=16, harness=['h_traj_w.c']),
                           dict(name='cxx', harness=['h_cxxw.c', 'h_cxxw_shim.cc'], hflags=['-DVF_CXXW=14'], nworkers=4)] +
                          # ISA axis: with -mfma <math.h> defines FP_FAST_FMA*, which selects other arms of conditional code (only where the CPU has it)
                          ([dict(name='f80-fma', real=16, harness=['h_traj_w.c'], cflags=['-mfma'], nworkers=3)] if _HAS_FMA else []),
-    parallel_configs=6,
+    parallel_configs=7,
     level='exploration',
     rule='requests are drawn at random (log-uniform limits 1e-3..1e3, distances 1e-6..1e6 in both directions, boundary velocities '
          '0 / +-vm / random / along or against the direction of travel) or solved to sit at a planning-branch condition '
